@@ -126,6 +126,7 @@ pub fn schema_alphabet(level: usize) -> Vec<RSchema> {
 				l2.push(S::record(&n.fresh("Rec"), vec![("o", S::Union(vec![S::Null, leaf(i, &mut n)])), ("p", S::Union(vec![leaf(i, &mut n), S::Null]))]));
 			}
 		}
+		l2.extend(pair_unions(&mut n));
 		for u in special_unions(&mut n) {
 			l2.push(S::array(u));
 		}
@@ -177,7 +178,50 @@ pub fn special_unions(n: &mut Names) -> Vec<RSchema> {
 		S::Union(vec![S::Null, S::enum_(&n.fresh("En"), &["a", "b"]), S::enum_(&n.fresh("ns.En"), &["a", "c"])]),
 		S::Union(vec![S::fixed(&n.fresh("Fx"), 2), S::fixed(&n.fresh("ns.Fx"), 3)]),
 		S::Union(vec![S::logical(Logical::BigDecimal, S::Bytes), S::Double]),
+		// three to five equally suitable branches for a type-directed choice
+		S::Union((0..3).map(|_| S::record(&n.fresh("RecN"), vec![("x", S::Int)])).collect()),
+		S::Union((0..4).map(|_| S::record(&n.fresh("ns.RecN"), vec![("x", S::Int)])).collect()),
+		S::Union((0..5).map(|_| S::record(&n.fresh("RecN"), vec![("x", S::Int)])).collect()),
+		S::Union((0..3).map(|_| S::enum_(&n.fresh("EnN"), &["a", "b"])).collect()),
+		S::Union((0..4).map(|_| S::enum_(&n.fresh("EnN"), &["a", "b"])).collect()),
+		S::Union((0..3).map(|_| S::fixed(&n.fresh("FxN"), 2)).collect()),
+		S::Union((0..5).map(|_| S::fixed(&n.fresh("FxN"), 2)).collect()),
+		S::Union(vec![S::Int, S::logical(Logical::Date, S::Int), S::logical(Logical::TimeMillis, S::Int)]),
+		S::Union(vec![S::Long, S::logical(Logical::TimeMicros, S::Long), S::logical(Logical::TimestampMillis, S::Long), S::logical(Logical::TimestampMicros, S::Long)]),
+		S::Union(vec![S::logical(Logical::TimeMillis, S::Int), S::logical(Logical::TimeMicros, S::Long)]),
 	]
+}
+
+/// Every ordered pair of distinct leaf kinds as a two-branch union (pairs whose branches have the
+/// same unnamed base type are left to `special_unions`: the specification does not allow them).
+pub fn pair_unions(n: &mut Names) -> Vec<RSchema> {
+	let mut out = Vec::new();
+	for i in 0..N_LEAVES {
+		for j in 0..N_LEAVES {
+			if i == j {
+				continue;
+			}
+			let (a, b) = (leaf(i, n), leaf(j, n));
+			let unnamed_base = |s: &RSchema| match s.base() {
+				RSchema::Fixed { .. } | RSchema::Enum { .. } | RSchema::Record { .. } => None,
+				other => Some(std::mem::discriminant(other)),
+			};
+			if let (Some(x), Some(y)) = (unnamed_base(&a), unnamed_base(&b)) {
+				if x == y {
+					continue;
+				}
+			}
+			// two branches of the same logical kind share the serde name the crate gives them
+			// ("Decimal"): no presentation can designate one of them
+			if let (Some(x), Some(y)) = (a.logical_type(), b.logical_type()) {
+				if std::mem::discriminant(x) == std::mem::discriminant(y) {
+					continue;
+				}
+			}
+			out.push(RSchema::Union(vec![a, b]));
+		}
+	}
+	out
 }
 
 // ---------------------------------------------------------------------------------------------
@@ -474,6 +518,135 @@ pub fn union_unambiguous_by_type(branches: &[RSchema], env: &Env) -> bool {
 	true
 }
 
+/// The union lookup table the crate documents in `union_variants_per_type_lookup.rs`, as the
+/// harness's statement of "the type determines the branch": serde call classes, and for each
+/// class the branch kinds that accept it with a priority (lowest wins, ties are conflicts).
+#[derive(Clone, Copy, PartialEq, Eq, Debug)]
+pub enum CallClass {
+	Null,
+	UnitVariant,
+	Boolean,
+	Integer4,
+	Integer8,
+	Float4,
+	Float8,
+	Str,
+	SliceU8,
+	SeqOrTuple,
+	StructOrMap,
+}
+
+/// serde call class of the natural presentation of a value of this branch (see `pres_of`)
+pub fn natural_call(s: &RSchema, env: &Env) -> CallClass {
+	let r = env.resolve(s);
+	match r {
+		RSchema::Logical(l, b) => match l {
+			Logical::Decimal { .. } | Logical::BigDecimal | Logical::Uuid => CallClass::Str,
+			Logical::Duration => CallClass::SeqOrTuple,
+			_ => natural_call(b, env),
+		},
+		RSchema::Null => CallClass::Null,
+		RSchema::Boolean => CallClass::Boolean,
+		RSchema::Int => CallClass::Integer4,
+		RSchema::Long => CallClass::Integer8,
+		RSchema::Float => CallClass::Float4,
+		RSchema::Double => CallClass::Float8,
+		RSchema::Bytes | RSchema::Fixed { .. } => CallClass::SliceU8,
+		RSchema::String => CallClass::Str,
+		RSchema::Array(_) => CallClass::SeqOrTuple,
+		RSchema::Map(_) | RSchema::Record { .. } => CallClass::StructOrMap,
+		RSchema::Enum { .. } => CallClass::UnitVariant,
+		RSchema::Union(_) => CallClass::Null,
+		RSchema::Ref(_) => unreachable!(),
+	}
+}
+
+/// Priority with which a branch of this kind accepts a serde call of this class (None: not at all).
+pub fn accepts_call(s: &RSchema, call: CallClass, env: &Env) -> Option<usize> {
+	use CallClass as C;
+	let r = env.resolve(s);
+	let int = |four: usize, eight: usize| match call {
+		C::Integer4 => Some(four),
+		C::Integer8 => Some(eight),
+		_ => None,
+	};
+	match r {
+		RSchema::Logical(l, b) => match l {
+			Logical::Decimal { .. } | Logical::BigDecimal => match call {
+				C::Integer4 | C::Integer8 => Some(5),
+				C::Float8 => Some(2),
+				C::Str => Some(20),
+				_ => None,
+			},
+			Logical::Uuid => (call == C::Str).then_some(0),
+			Logical::Date | Logical::TimeMillis => int(0, 1),
+			Logical::TimeMicros | Logical::TimestampMillis | Logical::TimestampMicros => int(1, 0),
+			Logical::Duration => match call {
+				C::StructOrMap | C::SeqOrTuple | C::SliceU8 => Some(5),
+				_ => None,
+			},
+			Logical::Unknown(_) => accepts_call(b, call, env),
+		},
+		RSchema::Null => match call {
+			C::Null => Some(0),
+			C::UnitVariant => Some(2),
+			_ => None,
+		},
+		RSchema::Boolean => (call == C::Boolean).then_some(0),
+		RSchema::Int => int(0, 1),
+		RSchema::Long => int(1, 0),
+		RSchema::Float => match call {
+			C::Float4 => Some(0),
+			C::Float8 => Some(1),
+			_ => None,
+		},
+		RSchema::Double => match call {
+			C::Float8 => Some(0),
+			C::Float4 => Some(1),
+			_ => None,
+		},
+		RSchema::Bytes => match call {
+			C::Str | C::UnitVariant => Some(10),
+			C::SliceU8 => Some(0),
+			C::SeqOrTuple => Some(2),
+			_ => None,
+		},
+		RSchema::String => match call {
+			C::Str => Some(0),
+			C::SliceU8 | C::UnitVariant => Some(1),
+			_ => None,
+		},
+		RSchema::Array(_) => (call == C::SeqOrTuple).then_some(0),
+		RSchema::Map(_) | RSchema::Record { .. } => (call == C::StructOrMap).then_some(0),
+		RSchema::Enum { .. } => match call {
+			C::Integer4 | C::Integer8 => Some(10),
+			C::Str => Some(5),
+			C::UnitVariant => Some(0),
+			_ => None,
+		},
+		RSchema::Fixed { .. } => match call {
+			C::Str => Some(15),
+			C::SliceU8 => Some(0),
+			C::SeqOrTuple => Some(2),
+			_ => None,
+		},
+		RSchema::Union(_) => None,
+		RSchema::Ref(_) => unreachable!(),
+	}
+}
+
+/// Does the natural (type-directed) presentation of a value of branch `i` determine that branch:
+/// is `i` the unique best acceptor of its serde call class among the branches?
+pub fn branch_determined_by_type(branches: &[RSchema], i: usize, env: &Env, records_carry_name: bool) -> bool {
+	let call = natural_call(&branches[i], env);
+	let Some(mine) = accepts_call(&branches[i], call, env) else { return false };
+	// a record is presented as a struct carrying its name: the name designates it
+	if records_carry_name && matches!(env.resolve(&branches[i]), RSchema::Record { .. }) {
+		return true;
+	}
+	branches.iter().enumerate().all(|(j, b)| j == i || accepts_call(b, call, env).map_or(true, |p| p > mine))
+}
+
 #[derive(Clone, Copy, Debug, PartialEq, Eq)]
 pub enum UnionStyle {
 	/// type-directed where natural classes are pairwise distinct, by name otherwise
@@ -549,7 +722,7 @@ pub fn pres_of(v: &RValue, s: &RSchema, env: &Env, us: UnionStyle, rs: RecordSty
 		}
 		(RSchema::Union(branches), RValue::Union(i, inner)) => {
 			let b = &branches[*i];
-			let by_type = us == UnionStyle::ByTypeWhereUnambiguous && union_unambiguous_by_type(branches, env);
+			let by_type = us == UnionStyle::ByTypeWhereUnambiguous && branch_determined_by_type(branches, *i, env, rs == RecordStyle::Struct);
 			if by_type {
 				let inner_p = pres_of(inner, b, env, us, rs);
 				// Option-like unions are naturally presented through Some/None
